@@ -1047,6 +1047,31 @@ func c19Conn(p *load.Program, r *oblig.Report) {
 		want1 := "(0 != " + T + ".TopicErrorCode)"
 		ok := strings.Contains(g, want1) && (strings.Contains(g, "c.topic") || true)
 		r.Check(ok, rule, "kafka."+name+" turns the topic's error code into the error", p.Pos(f.Pos()), want1+" ∧ (c.topic == \"\" ∨ name == c.topic)", g)
+		// … but only for the connection's own topic (or when it has none): the error of one topic must not hide the
+		// partitions of the others. No path leads from the code test to the error return without a test on c.topic.
+		isolated, nTest := true, 0
+		for _, b := range an.Blocks(f) {
+			_, ci := an.IfCond(b)
+			e := ci.Edge(token.NEQ)
+			if e < 0 || !strings.HasSuffix(clean(an.Shape(ci.X)), ".TopicErrorCode") {
+				continue
+			}
+			nTest++
+			q := an.PathQuery{Fn: f,
+				Stop: func(i ssa.Instruction) bool {
+					iff, isIf := i.(*ssa.If)
+					return isIf && strings.Contains(clean(an.Shape(an.CondOf(iff))), an.ParamName(f.Params[0])+".topic")
+				},
+				Target: func(i ssa.Instruction) bool {
+					ret, isRet := i.(*ssa.Return)
+					return isRet && len(ret.Results) == 2 && strings.Contains(clean(an.Shape(an.RetVal(ret, 1))), "TopicErrorCode")
+				}}
+			if q.ReachableFrom(an.Point{B: b.Succs[e], Idx: -1}) != nil {
+				isolated = false
+			}
+		}
+		r.Check(isolated && nTest > 0, rule, "kafka."+name+" reports a topic's error only when that topic is the connection's (or the connection has none)", p.Pos(f.Pos()),
+			"t.TopicErrorCode != 0 && (c.topic == \"\" || t.TopicName == c.topic)", "the error return is reachable without a test on c.topic")
 	}
 }
 
